@@ -65,6 +65,7 @@ func registerFamily(id string, mk func() *clustermc.Family) {
 
 func init() {
 	registerFamily("C01", C01)
+	registerFamily("C02", C02)
 }
 
 var _ = engine.VerifDir
